@@ -414,6 +414,35 @@ WildNestedExcl(M, TS, o, r) ==
         \/ \E g \in withDiff : g \in TSucc(M, g) \/ g \in TClosure(M, TSucc(M, g))
      /\ \E t \in TS : IsWild(t.u) /\ <<t.o.t, t.r>> \in reads
 
+\* KF-25 call site: an exclusion somewhere below (or above) another set operator on the evaluation
+\* path, with a typed-wildcard tuple among the tuples read.  ListUsers carries "everybody except
+\* these users" upwards as a list attached to individual results; through a second operator that
+\* information is applied to the wrong operand and concrete users who hold the relation are dropped.
+WildExclNested(M, TS, o, r) ==
+  LET goals == TGoalKeys(M, o.t, r) \cup {<<o.t, r>>}
+      opsOf == UNION {{<<h, x>> : x \in {y \in SubRw(Rw(M, h[1], h[2])) : y.k \in {"union", "inter", "diff"}}}
+                      : h \in {h \in goals : HasRel(M, h[1], h[2])}}
+      reads == TReadKeys(M, o.t, r)
+  IN /\ \E p \in opsOf : p[2].k = "diff"
+     /\ Cardinality(opsOf) >= 2
+     /\ \E t \in TS : IsWild(t.u) /\ <<t.o.t, t.r>> \in reads
+
+\* KF-20, third shape (found by the systematic set-operation cases): ONE exclusion that lies below a
+\* union.  The union merges "everybody except X" from one operand with positive results of the other
+\* and a later operator re-lists members of X.  (Exclusions below intersections only are handled
+\* correctly and are not covered by this classifier.)
+UnionOverDiff(M, TS, o, r) ==
+  LET goals == {h \in TGoalKeys(M, o.t, r) \cup {<<o.t, r>>} : HasRel(M, h[1], h[2])}
+      HasDiff(h) == HasRel(M, h[1], h[2]) /\ \E z \in SubRw(Rw(M, h[1], h[2])) : z.k = "diff"
+      Below(g, x) == LET cg == {<<k[1], k[2]>> : k \in {k \in TRwKeys(M, x, g[1], g[2]) : k[3] = "goal"}}
+                     IN cg \cup UNION {TGoalKeys(M, h[1], h[2]) : h \in cg}
+      reads == TReadKeys(M, o.t, r)
+  IN /\ \E g \in goals : \E x \in SubRw(Rw(M, g[1], g[2])) :
+          /\ x.k = "union"
+          /\ \/ \E y \in SubRw(x) : y.k = "diff"
+             \/ \E h \in Below(g, x) : HasDiff(h)
+     /\ \E t \in TS : IsWild(t.u) /\ <<t.o.t, t.r>> \in reads
+
 ListUsersClass(M, TS, ev) ==
   LET X    == SeqToSet(ev.got)
       hold(u) == Holds(M, TS, ev.ctx, ev.o, ev.r, u)
@@ -428,11 +457,12 @@ ListUsersClass(M, TS, ev) ==
      ELSE IF \E u \in X : ~matches(u) THEN <<"BAD_LU_FILTER", "">>
      \* KF-20: with a typed-wildcard tuple below two or more exclusions on the evaluation path, users
      \* subtracted at an inner level are re-listed by an outer one
-     ELSE IF (\E u \in X : hold(u) # "T") /\ WildNestedExcl(M, TS, ev.o, ev.r)
+     ELSE IF (\E u \in X : hold(u) # "T") /\ (WildNestedExcl(M, TS, ev.o, ev.r) \/ UnionOverDiff(M, TS, ev.o, ev.r))
           THEN <<"KF_LUNestedExclusionWildcard", ToString({u \in X : hold(u) # "T"})>>
      ELSE IF \E u \in X : hold(u) # "T" THEN <<"BAD_LU_UNSOUND", ToString({u \in X : hold(u) # "T"})>>
      ELSE IF missing = {} THEN <<"OK_LU", "">>
      ELSE IF SubCycle(M, TS, ev.o, ev.r) THEN <<"KF_ExclSubtractCycle", ToString(missing)>>
+     ELSE IF WildExclNested(M, TS, ev.o, ev.r) THEN <<"KF_LUWildcardExclusionNestedOmission", ToString(missing)>>
      ELSE IF AnyE(M, TS, ev.ctx) THEN <<"BAD_LU_INCOMPLETE_E", ToString(missing)>>
      ELSE <<"BAD_LU_INCOMPLETE", ToString(missing)>>
 
